@@ -166,7 +166,7 @@ def build_lib(flavor, extra_defs=()):
 
 
 def build_harness(src_rel, flavor="asan", extra_flags=(), extra_link=(), extra_srcs=(), deps=(), with_lib=True,
-                  rapidcheck=True, lib_defs=()):
+                  rapidcheck=True, lib_defs=(), exclude_lib=()):
     """Compile and link one harness TU (path relative to /verif) against the library objects."""
     src = os.path.join(VERIF, src_rel)
     flags = FLAVORS[flavor] + list(extra_flags)
@@ -181,6 +181,8 @@ def build_harness(src_rel, flavor="asan", extra_flags=(), extra_link=(), extra_s
     dep_blob = b"".join(read(p) for p in hdeps + implicit + [os.path.join(VERIF, d) for d in deps] +
                         [os.path.join(VERIF, s) for s in extra_srcs])
     objs = build_lib(flavor, lib_defs) if with_lib else []
+    # a harness that compiles a library source itself (under its own preprocessor set-up) leaves that object out
+    objs = [o for o in objs if not any(os.path.basename(o).startswith(x + "-") for x in exclude_lib)]
     key = sha(" ".join(flags), " ".join(extra_link), headers_digest(), read(src), dep_blob, " ".join(objs))
     bindir = os.path.join(BUILD, "bin")
     os.makedirs(bindir, exist_ok=True)
